@@ -268,7 +268,20 @@ func NewWorld() *World {
 
 // Calls returns the trace slice of a pass.
 func (w *World) Calls(p *PassInfo) []*kubesim.Call {
-	return w.Store.Trace[p.FirstSeq:p.LastSeq]
+	all := w.Store.Trace[p.FirstSeq:p.LastSeq]
+	for _, c := range all {
+		if c.Pass != p.ID {
+			// a pass of another controller ran inside this one: leave its calls out
+			var own []*kubesim.Call
+			for _, c := range all {
+				if c.Pass == p.ID {
+					own = append(own, c)
+				}
+			}
+			return own
+		}
+	}
+	return all
 }
 
 // RunPass runs one Reconcile of the named controller for the request, with crash recovery.
